@@ -6,6 +6,7 @@
    and passes the five-equation check.  Rejection of mismatching statements / edited fields: correspondence + sweep
    (all subsets U for n <= 3 / 5). *)
 From ZK Require Import Cl ClArith ClSig ClMore ClGroup ClBoudot ModelLemmas ClSpok ClSpok2 ClSpok3.
+From ZK Require Import ClTies.
 From ZK Require Import ClConsts ClExample.
 
 Theorem C15_spok_accepts_ties_Ce :
@@ -116,3 +117,29 @@ Check (C15_spok_complete_applies :
   exists p ds', spok_gen micro_suite boudot_params x_sg x_ck x_pk x_bases x_msgs x_U x_draws = Ok (p, ds') /\
   spok_verify micro_suite boudot_params p x_ck x_pk x_bases (map (at_ x_msgs) (revealed_of x_U 0 (length x_msgs))) x_U (length x_msgs) = Ok true).
 Print Assumptions C15_spok_complete_applies.
+
+(* fix 56a5ca8: in an accepted proof every per-attribute range proof is about the commitment of its opening proof *)
+Theorem C15_spok_loop_ties_range_proofs :
+  forall CS BP ck U pmi rpmi,
+  spok_verify_loop CS BP ck U pmi rpmi = Ok true ->
+  Forall2 (fun pv rp => c_value (pv_com pv) = bd_E rp) (firstn (length U) pmi) (firstn (length U) rpmi).
+Proof. exact spok_loop_ties_range_proofs. Qed.
+Check (C15_spok_loop_ties_range_proofs :
+  forall CS BP ck U pmi rpmi,
+  spok_verify_loop CS BP ck U pmi rpmi = Ok true ->
+  Forall2 (fun pv rp => c_value (pv_com pv) = bd_E rp) (firstn (length U) pmi) (firstn (length U) rpmi)).
+Print Assumptions C15_spok_loop_ties_range_proofs.
+
+(* finding F15 on the faithful model: the (opening proof, range proof) pairs are tied to nothing else *)
+Theorem C15_spok_subproofs_untied :
+  forall CS BP p ck pk bases rmsgs U nsm pmi' rpmi',
+  spok_verify CS BP p ck pk bases rmsgs U nsm = Ok true ->
+  spok_verify_loop CS BP ck U pmi' rpmi' = Ok true ->
+  spok_verify CS BP (with_subproofs p pmi' rpmi') ck pk bases rmsgs U nsm = Ok true.
+Proof. exact spok_subproofs_untied. Qed.
+Check (C15_spok_subproofs_untied :
+  forall CS BP p ck pk bases rmsgs U nsm pmi' rpmi',
+  spok_verify CS BP p ck pk bases rmsgs U nsm = Ok true ->
+  spok_verify_loop CS BP ck U pmi' rpmi' = Ok true ->
+  spok_verify CS BP (with_subproofs p pmi' rpmi') ck pk bases rmsgs U nsm = Ok true).
+Print Assumptions C15_spok_subproofs_untied.
